@@ -132,6 +132,20 @@ Example C04_current_timestamp_example :
   = [RFailed; ROk; RSkipped; RFile; RKilled; ROk; RSkipped; RSkipped].
 Proof. exact cur_timestamp_example. Qed.
 
+(* [LIVE] task shape "deps": a dep (a task without sources, so it always runs) regenerates one of the
+   task's sources from spec.txt before the up-to-date check; the fingerprint that counts is the one of the
+   tree the deps leave (mon_C04 / mon_C05 / nocoll_run evaluate it through deps_fs).  After an edit of
+   spec.txt the task runs again; failed and killed attempts in between do not make it skip. *)
+Example C04_current_deps_example :
+  wf_csc_proj [w_dep] /\ cks w_init_spec = [] /\
+  nocoll_run gmatch idH hx1 current [w_dep] (fs w_init_spec) []
+             (observe gmatch idH hx1 current [w_dep] w_init_spec h_dep) = true /\
+  nocoll5_run gmatch idH hx1 current [w_dep] (fs w_init_spec) []
+             (observe gmatch idH hx1 current [w_dep] w_init_spec h_dep) = true /\
+  map o_res (observe gmatch idH hx1 current [w_dep] w_init_spec h_dep)
+  = [ROk; RSkipped; RFile; RFailed; RKilled; ROk; RSkipped].
+Proof. exact cur_deps_example. Qed.
+
 (* ------------------------------------------------------------------------------------------- *)
 (* [HISTORICAL unless marked] witnesses conditional on a repair being absent.  7.4-7.7 are repaired
    in /repo (641799f, d637d06, 2f7088d): their premises are false for [current] today; the statements
@@ -176,7 +190,7 @@ Theorem C04_partial :
          (p : project) (s : state) (h : list event),
     wf_cs_proj p -> cks s = [] ->
     forallb (ev_c04_ok current) h = true ->
-    nocoll_run matchb H Hx current p (fs s) [] (observe matchb H Hx current p s h) = true ->
+    ProofsPartial.nocoll_run matchb H Hx current p (fs s) [] (observe matchb H Hx current p s h) = true ->
     mon_C04 matchb p (snap_of s) (observe matchb H Hx current p s h) = true.
 Proof. exact (fun a b matchb H Hx => c04_partial matchb H Hx current a b). Qed.
 Print Assumptions C04_partial.
@@ -184,7 +198,7 @@ Print Assumptions C04_partial.
 Example C04_partial_example :
   wf_cs_proj [w_task Checksum] /\
   forallb (ev_c04_ok pinned) h_partial = true /\
-  nocoll_run gmatch idH hx1 pinned [w_task Checksum] (fs w_init) []
+  ProofsPartial.nocoll_run gmatch idH hx1 pinned [w_task Checksum] (fs w_init) []
              (observe gmatch idH hx1 pinned [w_task Checksum] w_init h_partial) = true /\
   map o_res (observe gmatch idH hx1 pinned [w_task Checksum] w_init h_partial)
   = [RFailed; ROk; RFile; RFailed; ROk; RSkipped].
